@@ -127,8 +127,14 @@ def render(d, r, cfg):
         t.append("")
         return t
     comment()
+    used = set(st["model"] for st in d["stmts"] if st["kind"] in ("subckt", "gate"))
+
+    def goes_first(bb):
+        # a black box may precede the design only if the design instantiates it: otherwise the first model
+        # of the file - by convention the design - would be that black box
+        return bb["pos"] == "before" and cfg.get("allow_before", False) and bb["name"] in used
     for bb in d["blackboxes"]:
-        if bb["pos"] == "before" and cfg.get("allow_before", False):
+        if goes_first(bb):
             out.extend(bb_text(bb))
     out.append(".model " + d["name"])
     ins = [("%s[%d]" % (n, i)) if w > 1 else n for n, w in d["inputs"] for i in range(w)]
@@ -165,7 +171,7 @@ def render(d, r, cfg):
     out.append(".end")
     out.append("")
     for bb in d["blackboxes"]:
-        if bb["pos"] == "after" or (bb["pos"] == "before" and not cfg.get("allow_before", False)):
+        if bb["pos"] == "after" or (bb["pos"] == "before" and not goes_first(bb)):
             out.extend(bb_text(bb))
     return "\n".join(out) + "\n"
 
